@@ -543,16 +543,28 @@ def _run(mod, module_name, args, seed, t0):
                 except Exception:  # noqa: BLE001
                     pass
         if crashed:
-            # a worker died (segfault / abort inside the code under test): every unit whose in-flight file is still there was
-            # executing that case when its process (or the pool) went down; the first one listed is reported as the crashing input
+            # a worker died (segfault / abort inside the code under test) and took the pool with it.  Every unit that did not
+            # finish is re-run alone in a process of its own: it either completes (its results are merged) or dies again, in
+            # which case the case it was executing is on disk (in-flight file) and is reported as the crashing input.
             for u in crashed:
                 ip = inflight_path(prop, u[1], u[4])
                 if os.path.exists(ip):
-                    rec = json.load(open(ip))
-                    classify(rec["sub"], "process-crash", rec["case"], "the worker process executing this case died (segfault/abort in the code under test)", "generated")
                     os.remove(ip)
-            if not violations:
-                raise HarnessError("a worker process died but no in-flight case was recorded")
+                ex1 = ProcessPoolExecutor(max_workers=1, mp_context=ctx)
+                try:
+                    results.append((u, ex1.submit(run_unit, *u).result(timeout=3600)))
+                except BrokenProcessPool:
+                    if os.path.exists(ip):
+                        rec = json.load(open(ip))
+                        classify(rec["sub"], "process-crash", rec["case"],
+                                 "the worker process executing this case died (segfault/abort in the code under test)", "generated")
+                        os.remove(ip)
+                    else:
+                        raise HarnessError("unit %s/%d kills its worker process before executing any case" % (u[1], u[4]))
+                except TimeoutError:
+                    timed_out.append(u)
+                finally:
+                    ex1.shutdown(wait=False, cancel_futures=True)
         if timed_out:
             raise HarnessError("unit %s/%d exceeded its hard time limit (inconclusive)" % (timed_out[0][1], timed_out[0][4]))
 
